@@ -71,7 +71,15 @@ impl AsyncFileSystem for AsyncPhysicalFS {
             self.get_path(path)
                 .read_dir()
                 .await?
-                .map(|entry| entry.unwrap().file_name().into_string().unwrap()),
+                // entries that cannot be read or whose name is not valid UTF-8 cannot be
+                // addressed through a vfs path, skip them instead of panicking
+                .filter_map(|entry| {
+                    futures::future::ready(
+                        entry
+                            .ok()
+                            .and_then(|entry| entry.file_name().into_string().ok()),
+                    )
+                }),
         );
         Ok(entries)
     }
@@ -82,8 +90,12 @@ impl AsyncFileSystem for AsyncPhysicalFS {
             Ok(()) => Ok(()),
             Err(e) => match e.kind() {
                 ErrorKind::AlreadyExists => {
-                    let metadata = async_std::fs::metadata(&fs_path).await.unwrap();
-                    if metadata.is_dir() {
+                    // metadata can fail here, e.g. for a dangling symlink
+                    let is_dir = async_std::fs::metadata(&fs_path)
+                        .await
+                        .map(|metadata| metadata.is_dir())
+                        .unwrap_or(false);
+                    if is_dir {
                         return Err(VfsError::from(VfsErrorKind::DirectoryExists));
                     }
                     Err(VfsError::from(VfsErrorKind::FileExists))
